@@ -1,5 +1,5 @@
 (* C15/Driver.v — entry points of the correspondence run (extracted to OCaml). *)
-From RM Require Import C15.Model C15.Schema C15.Widths C15.Utf8 C15.Pretty C15.Scalar C15.Regs.
+From RM Require Import C15.Model C15.Schema C15.Widths C15.Utf8 C15.Pretty C15.Scalar C15.Regs C15.Consistent.
 From RM Require C19.Model.
 Open Scope Z_scope.
 
@@ -48,6 +48,10 @@ Definition regs_ok (kind : Z) (s : state) : bool :=
    Gallina checker judges it against the schema regenerated from json-schema.md *)
 Definition real_conforms (doc : list Z) : bool :=
   match parse doc with Some j => conforms DOC_SCHEMA j | None => false end.
+
+(* c15_consistent's conclusion evaluated on the REAL output *)
+Definition real_consistent (doc : list Z) : bool :=
+  match parse doc with Some j => consistent j | None => false end.
 
 (* c15_address_widths' conclusion evaluated on the REAL output *)
 Definition real_widths (w : pwidth) (doc : list Z) : bool :=
